@@ -162,7 +162,10 @@ where
 
         let (status, headers) = Header::try_from(fields)
             .map_err(|_e| {
-                self.inner.stream.stop_sending(Code::H3_REQUEST_CANCELLED);
+                //= https://www.rfc-editor.org/rfc/rfc9114#section-4.1.2
+                //# Malformed requests or responses that are
+                //# detected MUST be treated as a stream error of type H3_MESSAGE_ERROR.
+                self.inner.stream.stop_sending(Code::H3_MESSAGE_ERROR);
                 StreamError::StreamError {
                     code: Code::H3_MESSAGE_ERROR,
                     reason: "Received malformed header".to_string(),
@@ -170,7 +173,10 @@ where
             })?
             .into_response_parts()
             .map_err(|_e| {
-                self.inner.stream.stop_sending(Code::H3_REQUEST_CANCELLED);
+                //= https://www.rfc-editor.org/rfc/rfc9114#section-4.1.2
+                //# Malformed requests or responses that are
+                //# detected MUST be treated as a stream error of type H3_MESSAGE_ERROR.
+                self.inner.stream.stop_sending(Code::H3_MESSAGE_ERROR);
                 StreamError::StreamError {
                     code: Code::H3_MESSAGE_ERROR,
                     reason: "Received malformed header".to_string(),
